@@ -444,6 +444,10 @@ def rule_GE(ctx):
     tr = find('_c_, _s_ = (np.cos, np.sin)', rot)
     cn = tr[0][1]['_c_'] if tr else 'cos'
     sn = tr[0][1]['_s_'] if tr else 'sin'
+    if not tr:        # (the canonical form writes two assignments)
+        t1, t2 = find('_c_ = np.cos', rot), find('_s_ = np.sin', rot)
+        if len(t1) == 1 and len(t2) == 1:
+            cn, sn = t1[0][1]['_c_'], t2[0][1]['_s_']
 
     def R(a, e):     # degrees
         lf = Lifter({rp[0]: a, rp[1]: e},
